@@ -353,6 +353,16 @@ def generate(rng, tier, outdir):
             w.count("exhaustive.gates", str(len(ops)) + " (random sample)")
             it += 1
 
+    # ---- limits below the optimum on purpose: small circuits with max_gamma in {1, 2} (the F3 trigger, found afresh) ----
+    pool34 = [c for g in (3, 4) for c in small_circuits(g)]
+    for k in range(150 if quick else 1500):
+        nq, ops = pool34[int(rng.integers(0, len(pool34)))]
+        W = int(rng.integers(1, nq))
+        lo = LO[int(rng.integers(0, 3))]
+        s0 = int(rng.integers(0, 1000))
+        emit("below", dict(nq=nq, ops=ops, W=W, gate_lo=lo[0], wire_lo=lo[1], max_gamma=int(rng.integers(1, 3)),
+                           max_backjumps=(None if rng.random() < 0.5 else 10000), seeds=[s0, None]))
+
     # ---- random circuits on 2..6 qubits with <= 7 two-qubit gates, all limits, several seeds ----
     n_rand = 260 if quick else 5000
     kept = 0
@@ -401,6 +411,7 @@ def generate(rng, tier, outdir):
         rule="(1) corpus: the F3 witness class (cx;swap chains, W=2, max_gamma in {1,2,3,8}, every cut-kind combination, 3 seeds incl. None); "
              "(2) bounded-exhaustive: every circuit up to qubit relabelling on <=4 qubits with <=%s two-qubit gates from {cx: gamma 3, swap: gamma 7}"
              "%s, every W in 1..n and every cut-kind combination, max_gamma/max_backjumps cycling through %s / %s, 2 seeds (1 seed for 4 gates); "
+             "(2b) random circuits of that space with 3-4 gates, W < n, max_gamma in {1,2} (limits below the optimum on purpose); "
              "(3) random circuits on 2..6 qubits with 1..7 two-qubit gates (idle qubits, arbitrary first use, one-qubit gates), max_gamma in %s "
              "(limits below the optimum included), max_backjumps in %s, 3 seeds incl. None; (4) malformed: invalid settings, no cut kind, W=0. "
              "Compared EXACTLY per seed with the model fed the recorded queue tape: sampling_overhead and minimum_reached (or the refusal). "
